@@ -177,6 +177,16 @@ func (lcp *LCPStateMachine) setState(newState LCPState) {
 	oldState := lcp.state
 	lcp.state = newState
 
+	// The restart timer only runs while negotiating or terminating (RFC 1661
+	// section 4.6: Req-Sent, Ack-Rcvd, Ack-Sent, Closing, Stopping); it is
+	// stopped on entering any other state and otherwise left alone, so that a
+	// peer that falls silent after a reply cannot leave the automaton waiting
+	// forever
+	switch newState {
+	case LCPStateInitial, LCPStateStarting, LCPStateClosed, LCPStateStopped, LCPStateOpened:
+		lcp.stopTimer()
+	}
+
 	lcp.logger.Debug("LCP state change",
 		zap.String("from", oldState.String()),
 		zap.String("to", newState.String()),
@@ -525,8 +535,6 @@ func (lcp *LCPStateMachine) receiveConfigureAck(pkt *LCPPacket) error {
 		return nil
 	}
 
-	lcp.stopTimer()
-
 	switch lcp.state {
 	case LCPStateClosed, LCPStateStopped:
 		lcp.sendTerminateAck(pkt.Identifier)
@@ -554,8 +562,6 @@ func (lcp *LCPStateMachine) receiveConfigureNak(pkt *LCPPacket) error {
 	if pkt.Identifier != lcp.lastIdentifier {
 		return nil
 	}
-
-	lcp.stopTimer()
 
 	// Process NAK options and update our config
 	opts, err := ParseLCPOptions(pkt.Data)
@@ -623,8 +629,6 @@ func (lcp *LCPStateMachine) receiveConfigureReject(pkt *LCPPacket) error {
 		return nil
 	}
 
-	lcp.stopTimer()
-
 	// Process rejected options and remove them from our config
 	opts, err := ParseLCPOptions(pkt.Data)
 	if err != nil {
@@ -663,7 +667,6 @@ func (lcp *LCPStateMachine) receiveConfigureReject(pkt *LCPPacket) error {
 
 // receiveTerminateRequest handles incoming Terminate-Request
 func (lcp *LCPStateMachine) receiveTerminateRequest(pkt *LCPPacket) error {
-	lcp.stopTimer()
 
 	switch lcp.state {
 	case LCPStateClosed, LCPStateStopped, LCPStateClosing, LCPStateStopping:
@@ -674,6 +677,7 @@ func (lcp *LCPStateMachine) receiveTerminateRequest(pkt *LCPPacket) error {
 	case LCPStateOpened:
 		// This-Layer-Down
 		lcp.zeroRestartCount()
+		lcp.startTimer()
 		lcp.sendTerminateAck(pkt.Identifier)
 		lcp.setState(LCPStateStopping)
 	}
@@ -683,7 +687,6 @@ func (lcp *LCPStateMachine) receiveTerminateRequest(pkt *LCPPacket) error {
 
 // receiveTerminateAck handles incoming Terminate-Ack
 func (lcp *LCPStateMachine) receiveTerminateAck(pkt *LCPPacket) error {
-	lcp.stopTimer()
 
 	switch lcp.state {
 	case LCPStateClosing:
